@@ -108,6 +108,9 @@ func (e EnvT) Int(name string, def int) int {
 
 func (e EnvT) Thorough() bool { return e.Tier == "thorough" }
 
+// Expired: the worker's budget is used up (never true without a deadline).
+func (e EnvT) Expired() bool { return !e.Deadline.IsZero() && time.Now().After(e.Deadline) }
+
 func NewResult(scenario, engine string, e EnvT) *Result {
 	return &Result{Scenario: scenario, Engine: engine, Shard: e.Shard, NShards: e.NShards, Tier: e.Tier,
 		Bounds: map[string]any{}, outcomes: map[uint64]struct{}{}, viol: map[string]*Violation{},
